@@ -189,8 +189,10 @@ def all_wanted_called(I, impl, idx):
 
     def schema(j):
         I.saw_index(j)
+        FS.sync(I)
         return z3.Implies(z3.And(j >= 0, j < w["n_obs"], w["wants"](j, t)), z3.Select(called, j))
-    return universal(I, "all_wanted_called", schema, (I.ctx.fresh("obs", "int"),))
+    # (same family as the loop invariant: its instances are needed at this statement's witness)
+    return universal(I, "called", schema, (I.ctx.fresh("obs", "int"),))
 
 
 def selected_called(I, impl, sel, k):
@@ -205,7 +207,7 @@ def selected_called(I, impl, sel, k):
         I.saw_index(j)
         FS.sync(I)
         return z3.Implies(z3.And(j >= 0, j < to_z3(sel.n), to_z3(sel.keep(j)), rk(j) < kz), z3.Select(called, j))
-    return universal(I, "selected_called", schema, (I.ctx.fresh("obs", "int"),))
+    return universal(I, "called", schema, (I.ctx.fresh("obs", "int"),))
 
 
 def last_pos(I, sel, k):
@@ -341,5 +343,145 @@ def register(reg, prop="C14"):
             "result is self.results"],
         ensures_names=["steps==len(target_times)-1", "every-target-time-observed", "returns-results"],
     ))
-    return [f"{SV}:SVBackendImpl._compute_dt", f"{SV}:SVBackendImpl._is_evaluation_time",
+    keys = [f"{SV}:SVBackendImpl._compute_dt", f"{SV}:SVBackendImpl._is_evaluation_time",
             f"{SV}:SVBackendImpl._apply_observables", f"{SV}:SVBackendImpl.step", f"{SV}:SVBackendImpl._run"]
+    return keys + register_mps(reg, prop, inline_iet, ghost_entry, ghost_exit, an_observable)
+
+
+# ---------------------------------------------------------------------------------------------
+# emu-mps
+# ---------------------------------------------------------------------------------------------
+class StateObj(SymObj):
+    """An MPS: only its version (which step produced it) matters here.  `scalar * state` and the
+    extension by dark qubits give a state of the same version."""
+
+    def binop(self, I, op, other, reflected=False):
+        import ast
+        if op is ast.Mult:
+            return derived_state(self)
+        raise Unsupported(f"operator {op.__name__} on an MPS")
+
+
+def derived_state(st):
+    d = StateObj("MPS", None)
+    d.fields.update(st.fields)
+    d.fields["origin"] = st.fields.get("origin", st)
+    return d
+
+
+MPS_INV = ["self.timestep_count == len(self.target_times) - 1", "self.timestep_count >= 1",
+           "self.target_times[self.timestep_count] > 0"]
+
+
+def mps_impl(I, name="self"):
+    w = world(I)
+    ctx = I.ctx
+    obj = SymObj("MPSBackendImpl", MPSI)
+    st = StateObj("MPS", None)
+    norm = ctx.fresh("norm", "real")
+    ctx.assume(norm > 0)
+    factors = Opaque("state.factors")
+    factors.attrs["of"] = st
+    st.fields.update(version=ctx.fresh("state.version", "int"), norm=lambda I2: norm, factors=factors,
+                     orthogonality_center=ctx.fresh("orthogonality_center", "int"),
+                     eigenstates=Opaque("eigenstates"))
+    obj.fields.update(
+        config=w["config"], target_times=w["tt"], timestep_count=w["NT"],
+        _timestep_index=ctx.fresh("_timestep_index", "int"),
+        current_time=ctx.fresh("current_time", "real"), target_time=ctx.fresh("target_time", "real"),
+        state=st, hamiltonian=Opaque("hamiltonian"), current_interaction_matrix=Opaque("current_interaction_matrix"),
+        well_prepared_qubits_filter=OptV(ctx.fresh("filter.is_none", "bool"), Opaque("well_prepared_qubits_filter")),
+        results=Opaque("results"), statistics=Opaque("statistics"), time=ctx.fresh("time", "real"),
+        hamiltonian_type=Opaque("hamiltonian_type"), dim=2, resolved_num_gpus=0,
+        g_obs=ctx.fresh("g_obs", "int"), g_cb_last=ctx.fresh("g_cb_last", "int"),
+        g_called=z3.Const(ctx.fresh_name("g_called"), z3.ArraySort(z3.IntSort(), z3.BoolSort())))
+    w["impl"] = obj
+
+    def version(I2, s):
+        if isinstance(s, StateObj) and (s is st or s.fields.get("origin") is st):
+            return to_z3(s.fields["version"])
+        return z3.IntVal(-7)
+    w["state_version"] = version
+    return obj
+
+
+def register_mps(reg, prop, iet_policy, ghost_entry, ghost_exit, an_observable):
+    arr = lambda I, n: z3.Const(I.ctx.fresh_name(n), z3.ArraySort(z3.IntSort(), z3.BoolSort()))
+    reg.add_class("MPS", module=None, fields={})
+    reg.add_class("MPSBackendImpl", module=MPSI, fields={
+        "g_obs": "int", "g_cb_last": "int", "g_called": arr, "time": "real", "_timestep_index": "int",
+        "target_time": "real", "hamiltonian": "opaque", "current_interaction_matrix": "opaque"})
+
+    def extended_factors(I, factors, filt):
+        I.session.note("extended_mps_factors: the factors of the same state with the dark qubits re-inserted")
+        return factors
+
+    def new_mps(I, cref, args, kwargs):
+        """MPS(factors of the normalised state ...): a state of the same step"""
+        f = args[0]
+        src = f.attrs.get("of") if isinstance(f, Opaque) else None
+        if src is None:
+            raise Unsupported("MPS(...) from factors of unknown origin")
+        return derived_state(src)
+    reg.class_policies["MPS"] = new_mps
+    reg.class_policies["MPO"] = lambda I, cref, args, kwargs: Opaque("MPO(...)")
+    opaque = {f"{MPSI}:MPSBackendImpl._get_interaction_matrix": "opaque",
+              f"{MPSI}:MPSBackendImpl.update_H": "opaque", f"{MPSI}:MPSBackendImpl.init_baths": "opaque",
+              "emu_mps.utils:extended_mps_factors": extended_factors}
+
+    reg.add_contract(Contract(
+        f"{MPSI}:MPSBackendImpl.is_finished", property=prop,
+        params={"self": mps_impl}, returns="bool", raises={},
+        ensures=["result == (self._timestep_index >= self.timestep_count)"],
+    ))
+
+    reg.add_contract(Contract(
+        f"{MPSI}:MPSBackendImpl._is_evaluation_time", property=prop,
+        params={"self": mps_impl, "observable": an_observable, "t": "real", "tolerance": lambda I, n: TOL},
+        returns="bool", raises={},
+        ensures=["implies(wants(self, observable, t), result)",
+                 "implies(result, wants(self, observable, t))"],
+        ensures_names=["selected-when-wanted", "selected-only-when-wanted"],
+    ), callsite=False)
+
+    reg.add_contract(Contract(
+        f"{MPSI}:MPSBackendImpl.fill_results", property=prop,
+        params={"self": mps_impl}, setup=ghost_entry, post_setup=ghost_exit,
+        requires=MPS_INV + ["0 <= self.g_obs and self.g_obs <= self.timestep_count",
+                            # called when the state has reached the target time to observe
+                            "self.current_time == self.target_times[self.g_obs]",
+                            "self.state.version == self.g_obs"],
+        modifies=["self.g_obs", "self.g_called", "self.g_cb_last"],
+        policies=dict(iet_policy, **opaque), raises={},
+        loops={0: dict(invariant=["selected_called(self, callbacks_for_current_time_step, _k)",
+                                  "self.g_cb_last == last_pos(callbacks_for_current_time_step, _k)"],
+                       modifies=["self.g_called", "self.g_cb_last"])},
+        ensures=["self.g_obs == old(self.g_obs) + 1",
+                 "all_wanted_called(self, old(self.g_obs))",
+                 "self.state.version == old(self.state.version) and self.current_time == old(self.current_time)"],
+        ensures_names=["application-complete", "every-wanting-observable-invoked", "state-and-time-kept"],
+    ))
+
+    reg.add_contract(Contract(
+        f"{MPSI}:MPSBackendImpl.timestep_complete", property=prop,
+        params={"self": mps_impl},
+        requires=MPS_INV + ["0 <= self._timestep_index and self._timestep_index < self.timestep_count",
+                            # sweep_complete has just set current_time = target_time (end of this step)
+                            "self.current_time == self.target_times[self._timestep_index + 1]",
+                            "self.g_obs == self._timestep_index + 1",
+                            "self.state.version == self._timestep_index + 1"],
+        modifies=["self.g_obs", "self.g_called", "self.g_cb_last", "self._timestep_index", "self.target_time",
+                  "self.hamiltonian", "self.current_interaction_matrix", "self.time"],
+        policies=opaque, raises={},
+        ensures=[
+            # the end of step k is observed exactly once, then the index advances by one ...
+            "self.g_obs == old(self.g_obs) + 1",
+            "self._timestep_index == old(self._timestep_index) + 1",
+            # ... and the next step ends at the next target time
+            "implies(self._timestep_index < self.timestep_count,"
+            " self.target_time == self.target_times[self._timestep_index + 1])",
+            "self.current_time == old(self.current_time)"],
+        ensures_names=["observed-once", "one-step-counted", "next-target-time", "time-kept"],
+    ))
+    return [f"{MPSI}:MPSBackendImpl.is_finished", f"{MPSI}:MPSBackendImpl._is_evaluation_time",
+            f"{MPSI}:MPSBackendImpl.fill_results", f"{MPSI}:MPSBackendImpl.timestep_complete"]
